@@ -49,7 +49,7 @@ package errors
 //@   ensures [success_untouched] (panicked == 0 && nextRet < 400 && result1 == nil) ==> (result0 == nextRet && errBodies == old(errBodies))
 //@   ensures [panic_contained] panicked == 1 ==> (result0 == 0 && wh >= old(wh) + 1 && lastStatus == 500)
 
-//@ unit setup_sweep props=C11 files=setup.go nilchecks=on nonnil_params=on dispenser_variants=on exclude=`errors\.(errorsParse\$1|setup)$` filter=`.`
+//@ unit setup_sweep props=C11 files=setup.go nilchecks=on nonnil_params=on dispenser_variants=on exclude=`errors\.(errorsParse|errorsParse\$1|setup)$` filter=`.`
 //@ // Safety sweep of this directive's setup code: index, slice, division, nil-map store, nil dereference, explicit panic,
 //@ // and termination of the loops driven by the token cursor. No functional contract; callees in the dispenser through their contracts.
 //@ use casketfile/contracts_verif.go:dispenser_api
@@ -76,3 +76,29 @@ package errors
 //@   at call errorsParse do parsedLogger = result0.Log
 //@   ensures [logger_attached_on_success] result == nil ==> (attached == old(attached) + 1 && attachedLogger == parsedLogger)
 //@   ensures [nothing_attached_on_error] result != nil ==> attached == old(attached)
+
+//@ unit errors_parse props=C11,C12 nilchecks=on dispenser_variants=on filter=`errors\.errorsParse$|errors\.errorsParse\$1$`
+//@ // the parser of the `errors` directive and its block reader: the handler under construction exists with its page table
+//@ // and its logger from the first line on (what setup and ErrorHandler.ServeHTTP rely on); safety and termination
+//@ use casketfile/contracts_verif.go:dispenser_api
+//@ use @verif/specs/stdlib.spec:stdlib
+//@ use @verif/specs/stdlib.spec:casket_api
+//@ extern github.com/tmpim/casket/caskethttp/httpserver.DefaultLogRoller
+//@   ensures result != nil
+//@ extern github.com/tmpim/casket/caskethttp/httpserver.IsLogRollerSubdirective
+//@ extern github.com/tmpim/casket/caskethttp/httpserver.ParseRoller
+//@ extern path/filepath.IsAbs
+//@ extern os.Open
+//@ extern (*os.File).Close
+//@ extern log.Printf
+//@ extern strconv.Atoi
+//@ define wfHandler(h *ErrorHandler) bool = h != nil && h.ErrorPages != nil && h.Log != nil
+//@ func errorsParse$1
+//@   requires c != nil && cfg != nil && wfHandler(handler)
+//@   modifies Dispenser.cursor, Dispenser.nesting, ErrorHandler.GenericErrorPage, MV:map[int]string, MD:map[int]string
+//@   ensures [cursor_monotone] c.Dispenser.cursor >= old(c.Dispenser.cursor)
+//@   loop 1 invariant c != nil && cfg != nil && wfHandler(handler) && c.Dispenser.cursor >= old(c.Dispenser.cursor)
+//@ func errorsParse
+//@   requires c != nil
+//@   ensures [handler_with_pages_and_logger] result1 == nil ==> wfHandler(result0)
+//@   loop 1 invariant c != nil && cfg != nil && wfHandler(handler)
